@@ -444,6 +444,19 @@ func (x *Exec) ghostSets(st *State, fr *Frame, site string, extra map[string]*Va
 			x.ghostWgMove(st, site, cl, extra)
 			continue
 		}
+		if strings.HasPrefix(cl.Text, "obliged ") && strings.HasSuffix(cl.Text, " @"+site) {
+			// from this site on the thread has to close the channel before it blocks at or below the channel's class
+			text := strings.TrimSpace(strings.TrimSuffix(strings.TrimPrefix(cl.Text, "obliged "), "@"+site))
+			e, err := ParseExpr(text)
+			if err != nil {
+				panic(unsupported{err.Error()})
+			}
+			env := x.envAt(st, st.Frames[0])
+			if ov := x.V.eval(env, e); ov != nil && ov.Term != nil {
+				x.addWaitOblig(st, waitOblig{"chan", ov.Term, x.classOfText(env, text, x.FC), "the close of " + text})
+			}
+			continue
+		}
 		if !strings.HasPrefix(cl.Text, "set ") || !strings.HasSuffix(cl.Text, "@"+site) {
 			continue
 		}
@@ -661,6 +674,9 @@ func (x *Exec) applyContract(st *State, fr *Frame, dst ssa.Value, callee *ssa.Fu
 		}
 	}
 	env := x.calleeEnv(st, callee, args, freeVars)
+	if !assumed {
+		x.waitCheckCall(st, callee, fc, env, name, pos)
+	}
 	// a callee entered with a lock held (ghost holds L): the caller holds it and the monitor's invariants hold now
 	for _, cl := range fc.Of("ghost") {
 		if !strings.HasPrefix(cl.Text, "holds ") {
